@@ -18,6 +18,8 @@ from pathlib import Path
 from harness import coq
 from harness.common import REPO, ensure_repo_on_path
 
+PROCS = max(1, int(os.environ.get("VERIF_PROCS", "8")))   # worker processes of the C08 / C10 streams (shared box: VERIF_PROCS=4)
+
 # ------------------------------------------------------------------ snippets
 PY_BODIES = [
     "def compute_{n}(items, factor):\n    total = 0\n    for item in items:\n        if item > factor:\n            total = total + item * factor\n"
@@ -108,6 +110,162 @@ TS_NAMES = [
     "export function cells{n}(xs: string[]): string {{\n  let out = '';\n  for (const x of xs) {{\n    out = out + x;\n  }}\n  return out;\n}}\n",
 ]
 
+# ------------------------------------------------------------------ cross-file plants
+# Every cross-file rule (DRY duplicate blocks, DRY duplicate / similar constants, the three stringly-typed detectors) must see,
+# in some generated projects, one finding group with >= 3 participating files and >= 6 participating sites: reference lists
+# ('Also found in' / 'Also called in' / 'Also compared in'), their truncation, the grouping of near-equal names and the order in
+# which files reach the rule only matter from the third participant on.  A plant is a family of items spread over several files:
+#   ["K", [name, value], tag]             a module-level UPPER_CASE constant (names of one family are a random walk of small edits:
+#                                         equal names, near-equal names, chains A~B~C whose ends are not near, word permutations)
+#   ["F", [recv, fn, [values], oneline], tag]   call sites of one function with a string literal argument (one per value)
+#   ["Q", [var, [values]], tag]           scattered comparisons of one variable with string literals
+#   ["M", [var, [values]], tag]           a membership test against a fixed set of strings
+#   ["B", i, tag]                         (existing kind) a duplicate-able body
+CONST_BASES = ["BUF_LEN", "RETRY_LIMIT", "POOL_SIZE", "DEFAULT_PORT", "CACHE_TTL_MS", "PAGE_ROWS", "TIMEOUT", "WORKER_COUNT_MAX",
+               "START_DELAY", "LOG_LEVEL_NAME", "QUOTA"]
+CONST_VALUES = ["5", "30", "1024", "\"x\"", "0.5", "5"]
+_CONST_RE = re.compile(r"^[A-Z][A-Z0-9_]+$")
+_SWAPS = {"MAX": "MIN", "MIN": "MAX", "START": "END", "END": "START", "FIRST": "LAST", "LAST": "FIRST"}
+FUNC_POOL = [["", "run_stage"], ["worker", "run_stage"], ["", "ship_order"], ["bus", "handle_event"], ["", "schedule"],
+             ["task", "mark_state"], ["ui", "choose_theme"], ["hub", "emit_signal"]]
+VALUE_POOLS = [["fast", "slow"], ["red", "green", "blue"], ["build", "test", "deploy", "publish"],
+               ["north", "south", "east", "west", "center"], ["draft", "final"], ["cpu", "gpu", "tpu"]]
+CMP_VARS = ["env", "status", "tier", "phase", "flavour"]
+PLANT_KINDS = ("K", "F", "Q", "M")
+
+
+def name_walk(r, base: str, n: int) -> list:
+    """n constant names starting at base; each next name is 1-2 small edits of the previous one (append / drop / substitute
+    characters, rotate the words, swap a word for its antonym), so that neighbours are near-equal and the ends usually are not"""
+    names, cur, guard = [base], base, 0
+    while len(names) < n and guard < 50:
+        guard += 1
+        x = r.random()
+        nxt = cur
+        if x < 0.45:
+            nxt = cur + r.choice(["S", "2", "10", "_X", "ER", "B", "24", "_A"])
+        elif x < 0.58 and len(cur) > 5 and cur[-2] != "_":
+            nxt = cur[:-1]
+        elif x < 0.76:
+            pos = [k for k, ch in enumerate(cur) if ch.isalpha() and k > 0]
+            k = r.choice(pos)
+            nxt = cur[:k] + r.choice("ABEKMNORTXZ") + cur[k + 1:]
+        elif x < 0.9 and "_" in cur:
+            ws = cur.split("_")
+            nxt = "_".join(ws[1:] + ws[:1])
+        else:
+            ws = cur.split("_")
+            sw = [k for k, w in enumerate(ws) if w in _SWAPS]
+            if sw:
+                k = r.choice(sw)
+                ws[k] = _SWAPS[ws[k]]
+                nxt = "_".join(ws)
+            else:
+                nxt = cur + "_MAX"
+        if nxt != cur and _CONST_RE.match(nxt) and not nxt.endswith("_") and "__" not in nxt and len(nxt) < 40:
+            if r.random() < 0.85:
+                names.append(nxt)      # (sometimes a step of the walk is skipped: neighbours 2 steps apart)
+            cur = nxt
+    return names
+
+
+def _spread(r, files: list, n_sites: int) -> list:
+    """n_sites >= len(files) sites over the files, every file at least one"""
+    out = list(files) + [r.choice(files) for _ in range(max(0, n_sites - len(files)))]
+    r.shuffle(out)
+    return out
+
+
+def plant_cross(r, items_of: dict, p: float) -> list:
+    """adds cross-file plants to the item lists of a project (items_of: path -> items); each family with probability p;
+    returns what was planted (for the distribution report): [family, n_files, n_sites]"""
+    cands = [q for q in items_of if lang_of(q) in ("py", "ts") and not q.startswith(TOGGLE_DIRS) and q not in PATH_POOL_SKIP]
+    cands_py = [q for q in cands if lang_of(q) == "py"]
+    planted = []
+    counter = [0]
+
+    def tag_of(q):
+        counter[0] += 1
+        return (re.sub(r"[^a-z]", "", q.split(".")[0])[-3:] or "x") + "p" + str(counter[0])
+
+    for fam in ("K", "F", "Q", "M", "B"):
+        if r.random() >= p:
+            continue
+        pool = cands_py if fam == "M" else cands
+        if len(pool) < 2:
+            continue
+        k = r.randint(min(3, len(pool)), min(5, len(pool)))
+        files = r.sample(pool, k)
+        sites = _spread(r, files, r.choice([k, k + 1, 6, 7, 8, 9]))
+        if fam == "K":
+            names = name_walk(r, r.choice(CONST_BASES), r.randint(1, 5))
+            order = list(names)
+            r.shuffle(order)
+            same_value = r.random() < 0.5
+            used = set()
+            for j, q in enumerate(sites):
+                nm = order[j % len(order)] if j < len(order) or r.random() < 0.5 else r.choice(names)
+                if (q, nm) in used:
+                    continue
+                used.add((q, nm))
+                items_of[q].append(["K", [nm, CONST_VALUES[0] if same_value else r.choice(CONST_VALUES)], tag_of(q)])
+        elif fam == "F":
+            recv, fn = r.choice(FUNC_POOL)
+            vals = r.choice(VALUE_POOLS)
+            per = {}
+            for q in sites:
+                per.setdefault(q, []).append(r.choice(vals))
+            for q, vs in per.items():
+                items_of[q].append(["F", [recv, fn, vs, len(vs) >= 2 and r.random() < 0.2], tag_of(q)])
+        elif fam == "Q":
+            var = r.choice(CMP_VARS)
+            vals = r.choice(VALUE_POOLS)
+            per = {}
+            for q in sites:
+                per.setdefault(q, []).append(r.choice(vals))
+            for q, vs in per.items():
+                items_of[q].append(["Q", [var, vs], tag_of(q)])
+        elif fam == "M":
+            var = r.choice(CMP_VARS)
+            vals = r.choice(VALUE_POOLS[1:4])
+            for q in sites:
+                vs = vals if r.random() < 0.85 else vals[:-1] + ["other"]
+                items_of[q].append(["M", [var, list(vs)], tag_of(q)])
+        else:
+            i = r.randrange(3)
+            for q in sites:
+                items_of[q].append(["B", i, tag_of(q)])
+        planted.append([fam, k, len(sites)])
+    return planted
+
+
+def render_plant(lang: str, k: str, spec, tag: str) -> str:
+    if k == "K":
+        name, value = spec
+        return f"{name} = {value}\n" if lang == "py" else f"{'export ' if len(name) % 2 else ''}const {name} = {value};\n"
+    if k == "F":
+        recv, fn, vals, oneline = spec
+        callee = f"{recv}.{fn}" if recv else fn
+        arg = recv or "ctx"
+        calls = [f'{callee}("{v}")' for v in vals]
+        if lang == "py":
+            body = f"    pair = ({', '.join(calls)})\n    return pair\n" if oneline else "".join(f"    {c}\n" for c in calls) + f"    return {arg}\n"
+            return f"def drive_{tag}({arg}):\n" + body
+        body = f"  const pair = [{', '.join(calls)}];\n  return pair;\n" if oneline else "".join(f"  {c};\n" for c in calls) + f"  return {arg};\n"
+        return f"function drive_{tag}({arg}: any): any {{\n" + body + "}\n"
+    if k == "Q":
+        var, vals = spec
+        if lang == "py":
+            return f"def route_{tag}({var}):\n" + "".join(f'    if {var} == "{v}":\n        return {j + 1}\n' for j, v in enumerate(vals)) + "    return 0\n"
+        return (f"function route_{tag}({var}: string): number {{\n" +
+                "".join(f'  if ({var} === "{v}") {{\n    return {j + 1};\n  }}\n' for j, v in enumerate(vals)) + "  return 0;\n}\n")
+    if k == "M":
+        var, vals = spec
+        tup = ", ".join(f'"{v}"' for v in vals)
+        return f"def member_{tag}({var}):\n    if {var} in ({tup}):\n        return 1\n    return 0\n"
+    raise ValueError(k)
+
+
 KINDS_PY = {"B": PY_BODIES, "C": PY_CONSTS, "S": PY_STRINGLY, "L": PY_LOCAL, "N": PY_NAMES}
 KINDS_TS = {"B": TS_BODIES, "C": TS_CONSTS, "S": TS_STRINGLY, "L": TS_LOCAL, "N": TS_NAMES}
 
@@ -148,14 +306,16 @@ def render_content(path: str, items: list) -> str:
     """items: list of [kind, index, tag]; a file version is identified by its item list"""
     kinds = KINDS_TS if lang_of(path) == "ts" else KINDS_PY
     out = []
-    consts = [it for it in items if it[0] == "C"]
-    rest = [it for it in items if it[0] != "C"]
+    consts = [it for it in items if it[0] in ("C", "K")]
+    rest = [it for it in items if it[0] not in ("C", "K")]
     if lang_of(path) == "py":
         out.append('"""module."""\n')
     for k, i, tag in consts:
-        out.append(kinds[k][i % len(kinds[k])])
+        out.append(render_plant(lang_of(path), k, i, tag) if k == "K" else kinds[k][i % len(kinds[k])])
     for k, i, tag in rest:
-        if k == "X":
+        if k in PLANT_KINDS:
+            out.append("\n" + render_plant(lang_of(path), k, i, tag))
+        elif k == "X":
             out.append("\n" + i)      # raw text (a documented example), carried in the case itself
         elif k in ("BI", "BN"):
             # a duplicate-able body under an inline DRY suppression comment (Python only; `#` comments are not code)
@@ -206,7 +366,7 @@ def gen_items(r, path: str, tag: str, rich: float = 0.7) -> list:
     return items
 
 
-def gen_project(r, n_files=(3, 8), with_skips=True) -> dict:
+def gen_project(r, n_files=(3, 8), with_skips=True, plant: float = 0.3) -> dict:
     """abstract project: sorted relative paths (path id = index), directories, config, ignore patterns, file versions"""
     n = r.randint(*n_files)
     pool = list(PATH_POOL_PY)
@@ -249,15 +409,19 @@ def gen_project(r, n_files=(3, 8), with_skips=True) -> dict:
     configs = [config, config_variant(r, config), config_variant(r, config_variant(r, config))]
     for k in range(3):
         new_content(CONFIG_NAME, ["CONFIG", k])
+    items_of = {}
     for p in paths:
         tag = re.sub(r"[^a-z]", "", p.split(".")[0])[-3:] or "x"
-        fs0[universe.index(p)] = new_content(p, gen_items(r, p, tag))
+        items_of[p] = gen_items(r, p, tag)
+    planted = plant_cross(r, items_of, plant) if plant > 0 else []
+    for p in paths:
+        fs0[universe.index(p)] = new_content(p, items_of[p])
     fs0[universe.index(CONFIG_NAME)] = 0
     if ignore:
         fs0[universe.index(IGNORE_NAME)] = new_content(IGNORE_NAME, ["IGNORE", ignore])
     dirs = sorted({""} | {"/".join(p.split("/")[:k]) for p in universe for k in range(1, p.count("/") + 1)})
     return {"paths": universe, "dirs": dirs, "config": config, "configs": configs, "ignore": ignore, "contents": contents,
-            "fs0": {str(k): v for k, v in fs0.items()}}
+            "fs0": {str(k): v for k, v in fs0.items()}, "planted": planted}
 
 
 def config_of(proj: dict, k: int) -> dict:
@@ -634,7 +798,7 @@ def eval_shards(th: Path | None, workdir: Path, header: str, shards: list) -> li
         if r.returncode != 0:
             raise RuntimeError(f"coqc failed on {p.name}: {r.stderr[-800:]}")
         return coq.parse_nat_lists(r.stdout)
-    with ThreadPoolExecutor(max_workers=8) as ex:
+    with ThreadPoolExecutor(max_workers=PROCS) as ex:
         return list(ex.map(one, paths))
 
 
